@@ -578,3 +578,50 @@ Example ex_half_finite_points :
        (FloatKernels.Z2F 1, PrimFloat.nan); (PrimFloat.neg_infinity, FloatKernels.Z2F 1)]
   = [true; false; true; false].
 Proof. vm_compute; reflexivity. Qed.
+
+(* ---- (a) EMPTY polygons / multipolygons: no finite coordinate in the buffer ----
+   A polygon or multipolygon whose vertices are all infinite, or infinite mixed with NaN, has
+   NaN bounds and is inert like a NaN-only one.  The KERNEL point_intersects_polygon alone still
+   answers True for such buffers and finite points (its ray test against infinite vertices:
+   ex_inf_polygon_kernel_true below); the wrappers Point._intersects_polygon and
+   PointArray._intersects_polygon therefore test  np.isfinite(polygon.buffer_values).any()
+   first (/repo 2a2a476; formerly the recorded finding inf-only-polygon-intersects-points).
+   [FloatKernels.fpolygon_intersects] transcribes that wrapper over the binary64 kernel
+   model; harness/cfloat_util.py compares it with PointArray.intersects / Point.intersects
+   on real Polygon scalars.  For EVERY point, finite or not, and any offsets: *)
+Theorem C17_inf_polygon_contains_no_point :
+  forall (x y : PrimFloat.float) (values : list PrimFloat.float) (offs : list nat),
+  Forall FloatExact.fnonfinite values ->
+  FloatKernels.fpolygon_intersects x y values offs = false.
+Proof. exact FloatExact.inf_polygon_contains_no_point. Qed.
+Print Assumptions C17_inf_polygon_contains_no_point.
+
+(* (b) a polygon with at least one finite coordinate is handed to the kernel unchanged *)
+Theorem C17_finite_polygon_kernel :
+  forall (x y : PrimFloat.float) (values : list PrimFloat.float) (offs : list nat),
+  Exists (fun v => FloatKernels.fisfinite v = true) values ->
+  FloatKernels.fpolygon_intersects x y values offs =
+  FloatKernels.fpoint_intersects_polygon x y values offs.
+Proof. exact FloatExact.finite_polygon_kernel. Qed.
+Print Assumptions C17_finite_polygon_kernel.
+
+(* non-vacuity: the all-infinite "triangle" (-inf,-inf) (inf,-inf) (inf,inf) of the former
+   finding, and the mixed ring (-inf,NaN) (inf,NaN) (inf,inf) (-inf,NaN): the kernel says
+   the origin is inside, the wrapper says it is not *)
+Definition ex_inf_ring : list PrimFloat.float :=
+  [PrimFloat.neg_infinity; PrimFloat.neg_infinity; PrimFloat.infinity; PrimFloat.neg_infinity;
+   PrimFloat.infinity; PrimFloat.infinity; PrimFloat.neg_infinity; PrimFloat.neg_infinity].
+Definition ex_mixed_ring : list PrimFloat.float :=
+  [PrimFloat.neg_infinity; PrimFloat.nan; PrimFloat.infinity; PrimFloat.nan;
+   PrimFloat.infinity; PrimFloat.infinity; PrimFloat.neg_infinity; PrimFloat.nan].
+Example ex_inf_polygon_kernel_true :
+  (FloatKernels.fpoint_intersects_polygon PrimFloat.zero PrimFloat.zero ex_inf_ring [0; 8],
+   FloatKernels.fpoint_intersects_polygon PrimFloat.zero PrimFloat.zero ex_mixed_ring [0; 8])
+  = (true, true).
+Proof. vm_compute; reflexivity. Qed.
+Example ex_inf_polygon_wrapper_false :
+  (FloatKernels.fpolygon_intersects PrimFloat.zero PrimFloat.zero ex_inf_ring [0; 8],
+   FloatKernels.fpolygon_intersects PrimFloat.zero PrimFloat.zero ex_mixed_ring [0; 8],
+   FloatKernels.fpolygon_intersects (FloatKernels.Z2F 1) (FloatKernels.Z2F 1) ex_tri [0; 8])
+  = (false, false, true).
+Proof. vm_compute; reflexivity. Qed.
